@@ -211,26 +211,17 @@ Proof.
     apply sc_add_clauses. apply sc_add_calls. eapply cinv_nonmatching; eauto.
 Qed.
 
-Lemma sc_enc_loop H0 fuel falses : forall st work st', SC H0 st -> enc_loop U P fuel falses st work = Some st' -> SC H0 st'.
+Lemma sc_enc_run H0 evs : forall st work tr st' work',
+  SC H0 st -> enc_run U P st work tr evs = Some (st', work') -> SC H0 st'.
 Proof.
-  induction fuel as [|f IH]; intros st work st' H; destruct work as [|t rest]; simpl;
-    try (intro E; inversion E; subst; exact H); try discriminate.
-  destruct (run_one U P falses st t) as [st1 w1] eqn:E1. apply IH. eapply sc_run_one; eauto.
-Qed.
-
-Lemma sc_encode H0 fuel falses st sos st' : SC H0 st -> encode U P fuel falses st sos = Some st' -> SC H0 st'.
-Proof.
-  intro H. unfold encode. destruct (queue_solvables st sos) as [st1 w] eqn:E1.
-  apply sc_enc_loop. eapply sc_same; [exact H | eapply queue_solvables_cc; eauto].
-Qed.
-
-Lemma sc_enc_solve H0 fuel evs : forall st tr st', SC H0 st -> enc_solve U P fuel st tr evs = Some st' -> SC H0 st'.
-Proof.
-  induction evs as [|e evs IH]; intros st tr st' H; simpl.
+  induction evs as [|e evs IH]; intros st work tr st' work' H; simpl.
   - intro E. inversion E. subst. exact H.
-  - destruct e as [sos|s|e].
-    + destruct (encode U P fuel (falses_of tr) st sos) as [st1|] eqn:E1; [|discriminate].
-      apply IH. eapply sc_encode; eauto.
+  - destruct e as [sos|k|s|e].
+    + destruct work as [|x work0]; [|discriminate].
+      destruct (queue_solvables st sos) as [st1 w] eqn:E1. apply IH.
+      eapply sc_same; [exact H | eapply queue_solvables_cc; eauto].
+    + destruct (remove_task k work) as [work0|]; [|discriminate].
+      destruct (run_one U P (falses_of tr) st k) as [st1 w1] eqn:E1. apply IH. eapply sc_run_one; eauto.
     + apply IH. eapply sc_same; [exact H | apply register_cc].
     + apply IH. exact H.
 Qed.
@@ -239,8 +230,8 @@ Qed.
    calls of earlier solves that produced the cache c0 -- no get_candidates,
    get_dependencies or filter_candidates request is ever repeated, and
    sort_candidates is called once per version set *)
-Theorem enc_once H0 c0 fuel evs st :
-  CInv c0 H0 -> enc_solve U P fuel (estate0 c0) [] evs = Some st ->
+Theorem enc_once H0 c0 evs st work :
+  CInv c0 H0 -> enc_run U P (estate0 c0) [] [] evs = Some (st, work) ->
   let H := H0 ++ e_calls st in
   NoDup (flat_map k_cands H) /\ NoDup (flat_map k_deps H) /\
   NoDup (flat_map k_match H) /\ NoDup (flat_map k_nonmatch H) /\
@@ -248,7 +239,7 @@ Theorem enc_once H0 c0 fuel evs st :
   CInv (e_cache st) H.
 Proof.
   intros HI E. assert (HS : SC H0 (estate0 c0)) by (unfold SC; simpl; rewrite app_nil_r; exact HI).
-  pose proof (sc_enc_solve H0 fuel evs _ _ _ HS E) as HC. unfold SC in HC.
+  pose proof (sc_enc_run H0 evs _ _ _ _ _ HS E) as HC. unfold SC in HC.
   destruct HC as [A1 A2 A3 A4 A5 B1 B2 B3 B4 B5]. cbv zeta. rewrite A1, A2, A3, A4, A5.
   repeat split; try (apply NoDup_rev; assumption); try assumption.
   exists (rev (c_sorted (e_cache st))). split; [apply NoDup_rev; assumption | reflexivity].
@@ -294,12 +285,6 @@ Proof.
   - intros [so [H1 H2]]. exists so. auto.
   - intros [H1 H2]. auto.
   - intros [H1 H2]. auto.
-Qed.
-
-Lemma optN_eqb_eq a b : optN_eqb a b = true <-> a = b.
-Proof.
-  destruct a as [x|], b as [y|]; simpl; try (split; [discriminate | intro H; discriminate H]); [|split; reflexivity].
-  rewrite N.eqb_eq. split; [intro; subst; reflexivity | intro H; inversion H; reflexivity].
 Qed.
 
 Lemma mem_so_In so l : mem_so so l = true <-> In so l.
@@ -493,46 +478,39 @@ Proof.
     + exists so. auto.
 Qed.
 
-Lemma ji_enc_loop fuel falses : forall st work st',
-  JI st -> Forall (task_just (e_sols st)) work -> enc_loop U P fuel falses st work = Some st' ->
-  JI st' /\ sols_le st st'.
+Lemma ji_enc_run evs : forall st work tr st' work',
+  JI st -> Forall (task_just (e_sols st)) work -> enc_run U P st work tr evs = Some (st', work') ->
+  JI st' /\ Forall (task_just (e_sols st')) work' /\ sols_le st st'.
 Proof.
-  induction fuel as [|f IH]; intros st work st' H Hw; destruct work as [|t rest]; simpl;
-    try (intro E; inversion E; subst; split; [exact H | apply sols_le_refl]); try discriminate.
-  destruct (run_one U P falses st t) as [st1 w1] eqn:E1. intro E.
-  inversion Hw as [|? ? Ht Hrest]. subst.
-  destruct (ji_run_one falses st t st1 w1 H Ht E1) as (H1 & Hle & Hw1).
-  destruct (IH st1 (rest ++ w1) st' H1) as [H2 Hle2]; [|exact E|].
-  - apply Forall_app. split; [|exact Hw1]. eapply Forall_impl; [|exact Hrest]. intro x. apply task_just_mono. exact Hle.
-  - split; [exact H2 | eapply sols_le_trans; eauto].
-Qed.
-
-Lemma ji_encode fuel falses st sos st' : JI st -> encode U P fuel falses st sos = Some st' -> JI st' /\ sols_le st st'.
-Proof.
-  intro H. unfold encode. destruct (queue_solvables st sos) as [st1 w] eqn:E1. intro E.
-  destruct (queue_solvables_sols _ _ _ _ E1) as [A1 B1]. destruct (queue_solvables_cc _ _ _ _ E1) as [_ C1].
-  destruct (ji_enc_loop fuel falses st1 w st') as [H2 L2]; [eapply ji_le; eauto | exact B1 | exact E|].
-  split; [exact H2 | eapply sols_le_trans; eauto].
-Qed.
-
-Lemma ji_enc_solve fuel evs : forall st tr st', JI st -> enc_solve U P fuel st tr evs = Some st' -> JI st'.
-Proof.
-  induction evs as [|e evs IH]; intros st tr st' H; simpl.
-  - intro E. inversion E. subst. exact H.
-  - destruct e as [sos|s|e].
-    + destruct (encode U P fuel (falses_of tr) st sos) as [st1|] eqn:E1; [|discriminate].
-      apply IH. eapply ji_encode; eauto.
-    + apply IH. unfold JI in *. rewrite register_sols. destruct (register_cc st s) as [_ C]. rewrite C. exact H.
-    + apply IH. exact H.
+  induction evs as [|e evs IH]; intros st work tr st' work' H Hw; simpl.
+  - intro E. inversion E. subst. split; [exact H | split; [exact Hw | apply sols_le_refl]].
+  - destruct e as [sos|k|s|e].
+    + destruct work as [|x work0]; [|discriminate].
+      destruct (queue_solvables st sos) as [st1 w] eqn:E1. intro E.
+      destruct (queue_solvables_sols _ _ _ _ E1) as [A1 B1]. destruct (queue_solvables_cc _ _ _ _ E1) as [_ C1].
+      destruct (IH st1 w tr st' work') as (R1 & R2 & R3); [eapply ji_le; eauto | exact B1 | exact E|].
+      split; [exact R1 | split; [exact R2 | eapply sols_le_trans; eauto]].
+    + destruct (remove_task k work) as [work0|] eqn:Er; [|discriminate].
+      destruct (remove_task_Forall k work work0 Er Hw) as [Hk Hw0].
+      destruct (run_one U P (falses_of tr) st k) as [st1 w1] eqn:E1. intro E.
+      destruct (ji_run_one _ _ _ _ _ H Hk E1) as (H1 & Hle & Hw1).
+      destruct (IH st1 (work0 ++ w1) tr st' work') as (R1 & R2 & R3); [exact H1 | | exact E|].
+      * apply Forall_app. split; [|exact Hw1]. eapply Forall_impl; [|exact Hw0]. intro x. apply task_just_mono. exact Hle.
+      * split; [exact R1 | split; [exact R2 | eapply sols_le_trans; eauto]].
+    + intro E. destruct (IH (register U st s) work tr st' work') as (R1 & R2 & R3); [| |exact E|].
+      * unfold JI in *. rewrite register_sols. destruct (register_cc st s) as [_ C]. rewrite C. exact H.
+      * rewrite register_sols. exact Hw.
+      * split; [exact R1 | split; [exact R2|]]. unfold sols_le in *. rewrite register_sols in R3. exact R3.
+    + apply IH; assumption.
 Qed.
 
 (* T4 (causality): every provider call of a solve is justified by a solvable
    whose clauses were requested (or the root): get_dependencies only for such
    a solvable, get_candidates only for a name its dependencies mention,
    filter/sort only for a version set they mention *)
-Theorem enc_causal c0 fuel evs st :
-  enc_solve U P fuel (estate0 c0) [] evs = Some st -> Forall (call_just (e_sols st)) (e_calls st).
-Proof. intro E. apply (ji_enc_solve fuel evs (estate0 c0) [] st); [constructor | exact E]. Qed.
+Theorem enc_causal c0 evs st work :
+  enc_run U P (estate0 c0) [] [] evs = Some (st, work) -> Forall (call_just (e_sols st)) (e_calls st).
+Proof. intro E. apply (ji_enc_run evs (estate0 c0) [] [] st work); [constructor | constructor | exact E]. Qed.
 
 
 (* ---------- laziness: without hints nothing is queued that the solver did not ask for ---------- *)
@@ -644,18 +622,6 @@ Proof.
     eapply li_same; [exact H | reflexivity | simpl; eapply req_nonmatching_deps; eauto].
 Qed.
 
-Lemma li_enc_loop R fuel falses : forall st work st',
-  LI R st -> JI st -> Forall (task_just (e_sols st)) work -> enc_loop U P fuel falses st work = Some st' -> LI R st'.
-Proof.
-  induction fuel as [|f IH]; intros st work st' H HJ Hw; destruct work as [|t rest]; simpl;
-    try (intro E; inversion E; subst; exact H); try discriminate.
-  destruct (run_one U P falses st t) as [st1 w1] eqn:E1. intro E.
-  inversion Hw as [|? ? Ht Hrest]. subst.
-  destruct (ji_run_one falses st t st1 w1 HJ Ht E1) as (HJ1 & Hle & Hw1).
-  apply (IH st1 (rest ++ w1) st'); [eapply li_run_one; eauto | exact HJ1 | | exact E].
-  apply Forall_app. split; [|exact Hw1]. eapply Forall_impl; [|exact Hrest]. intro x. apply task_just_mono. exact Hle.
-Qed.
-
 Lemma li_queue_solvables R sos : forall st st' w,
   LI R st -> incl sos R -> queue_solvables st sos = (st', w) -> LI R st'.
 Proof.
@@ -667,28 +633,30 @@ Proof.
     + intros x Hx. apply Hi. right. exact Hx.
 Qed.
 
-Lemma li_encode R fuel falses st sos st' :
-  LI R st -> JI st -> incl sos R -> encode U P fuel falses st sos = Some st' -> LI R st'.
+Lemma li_enc_run evs : forall R st work tr st' work',
+  LI R st -> JI st -> Forall (task_just (e_sols st)) work ->
+  enc_run U P st work tr evs = Some (st', work') -> LI (R ++ requested evs) st'.
 Proof.
-  intros H HJ Hi. unfold encode. destruct (queue_solvables st sos) as [st1 w] eqn:E1. intro E.
-  destruct (queue_solvables_sols _ _ _ _ E1) as [A1 B1]. destruct (queue_solvables_cc _ _ _ _ E1) as [_ C1].
-  eapply li_enc_loop; [eapply li_queue_solvables; eauto | eapply ji_le; eauto | exact B1 | exact E].
-Qed.
-
-Lemma li_enc_solve fuel evs : forall R st tr st',
-  LI R st -> JI st -> enc_solve U P fuel st tr evs = Some st' -> LI (R ++ requested evs) st'.
-Proof.
-  induction evs as [|e evs IH]; intros R st tr st' H HJ; simpl.
+  induction evs as [|e evs IH]; intros R st work tr st' work' H HJ Hw; simpl.
   - intro E. inversion E. subst. rewrite app_nil_r. exact H.
-  - destruct e as [sos|s|e].
-    + destruct (encode U P fuel (falses_of tr) st sos) as [st1|] eqn:E1; [|discriminate]. intro E.
-      rewrite app_assoc. apply (IH (R ++ sos) st1 tr st'); [| eapply ji_encode; eauto | exact E].
-      eapply li_encode; [| exact HJ | | exact E1].
+  - destruct e as [sos|k|s|e].
+    + destruct work as [|x work0]; [|discriminate].
+      destruct (queue_solvables st sos) as [st1 w] eqn:E1. intro E.
+      destruct (queue_solvables_sols _ _ _ _ E1) as [A1 B1]. destruct (queue_solvables_cc _ _ _ _ E1) as [_ C1].
+      rewrite app_assoc. apply (IH (R ++ sos) st1 w tr st' work'); [| eapply ji_le; eauto | exact B1 | exact E].
+      eapply li_queue_solvables; [| |exact E1].
       * eapply li_mono; [|exact H]. apply incl_appl, incl_refl.
       * apply incl_appr, incl_refl.
+    + destruct (remove_task k work) as [work0|] eqn:Er; [|discriminate].
+      destruct (remove_task_Forall k work work0 Er Hw) as [Hk Hw0].
+      destruct (run_one U P (falses_of tr) st k) as [st1 w1] eqn:E1. intro E. simpl.
+      destruct (ji_run_one _ _ _ _ _ HJ Hk E1) as (H1 & Hle & Hw1).
+      apply (IH R st1 (work0 ++ w1) tr st' work'); [eapply li_run_one; eauto | exact H1 | | exact E].
+      apply Forall_app. split; [|exact Hw1]. eapply Forall_impl; [|exact Hw0]. intro x. apply task_just_mono. exact Hle.
     + simpl. apply IH.
       * eapply li_same; [exact H | apply register_sols | destruct (register_cc st s) as [C _]; rewrite C; reflexivity].
       * unfold JI in *. rewrite register_sols. destruct (register_cc st s) as [_ C]. rewrite C. exact HJ.
+      * rewrite register_sols. exact Hw.
     + simpl. apply IH; assumption.
 Qed.
 
@@ -696,18 +664,18 @@ Qed.
    came from earlier solves with call history H0, get_dependencies is called in
    this solve only for solvables the solver asked the encoder to encode -- the
    ones it had assigned true -- never for an unselected candidate *)
-Theorem enc_lazy H0 fuel evs st :
-  CInv c0 H0 -> enc_solve U P fuel (estate0 c0) [] evs = Some st ->
+Theorem enc_lazy H0 evs st work :
+  CInv c0 H0 -> enc_run U P (estate0 c0) [] [] evs = Some (st, work) ->
   forall s, In (CDeps s) (e_calls st) -> In (Some s) (requested evs).
 Proof.
   intros HI E s Hs.
   assert (L0 : LI [] (estate0 c0)) by (constructor; simpl; [intros x [] | intros x Hx; left; exact Hx]).
   assert (J0 : JI (estate0 c0)) by constructor.
-  pose proof (li_enc_solve fuel evs [] _ _ _ L0 J0 E) as [A _]. simpl in A.
-  pose proof (enc_causal c0 fuel evs st E) as HJ. rewrite Forall_forall in HJ. specialize (HJ _ Hs). simpl in HJ.
+  pose proof (li_enc_run evs [] _ _ _ _ _ L0 J0 (Forall_nil _) E) as [A _]. simpl in A.
+  pose proof (enc_causal c0 evs st work E) as HJ. rewrite Forall_forall in HJ. specialize (HJ _ Hs). simpl in HJ.
   destruct (A s HJ) as [Hr|Hc]; [exact Hr|]. exfalso.
   (* s was already cached before this solve: then it was requested in H0 and again now *)
-  destruct (enc_once H0 c0 fuel evs st HI E) as (_ & ND & _).
+  destruct (enc_once H0 c0 evs st work HI E) as (_ & ND & _).
   rewrite flat_map_app in ND. destruct HI as [_ D0 _ _ _ _ _ _ _ _].
   assert (In s (flat_map k_deps H0)) by (rewrite D0; apply in_rev in Hc; exact Hc).
   assert (In s (flat_map k_deps (e_calls st))) by (apply in_flat_map; exists (CDeps s); split; [exact Hs | left; reflexivity]).
